@@ -45,7 +45,17 @@ IDENTITY_SYMS = set()
 def identity_attrs(prog, ci):
     """Attributes defined at data-passing time as  eye(..)  or  <literal> * eye(..)  (an identity / jitter matrix)."""
     out = set()
-    for c, fn, st, value in [s_ for a in ("I", "epsilon") for s_ in prog.self_assignments(ci, a, methods={"pass_spatial_data", "__init__"})]:
+    sites = []
+    for c in prog.mro(ci):
+        for mname in ("pass_spatial_data", "__init__"):
+            fn = c.methods.get(mname)
+            if fn is None or not fn.args.args:
+                continue
+            for st in ast.walk(fn):
+                if isinstance(st, ast.Assign) and len(st.targets) == 1 and isinstance(st.targets[0], ast.Attribute) \
+                        and isinstance(st.targets[0].value, ast.Name) and st.targets[0].value.id == fn.args.args[0].arg:
+                    sites.append((c, fn, st, st.value))
+    for c, fn, st, value in sites:
         v = value
         if isinstance(v, ast.BinOp) and isinstance(v.op, ast.Mult) and isinstance(v.left, ast.Constant):
             v = v.right
